@@ -125,31 +125,23 @@ fn diff_class(a: &Ent, b: &Ent) -> Vec<&'static str> {
     d
 }
 
-/// Finer classification of path collisions into the known mechanisms.
+/// Finer classification of path collisions: the smallest set of known lossy steps of
+/// FileName::get_components (`src` elision for modules, `.` -> `-`) that explains the collision.
 fn path_mechanism(a: &Ent, b: &Ent) -> String {
-    let norm = |p: &Vec<String>| -> Vec<String> { p.iter().map(|c| c.strip_suffix(".capy").unwrap_or(c).to_string()).collect() };
-    let (pa, pb) = (norm(&a.path), norm(&b.path));
-    let drop_src = |p: &Vec<String>, root: &Root| -> Vec<String> {
-        // component index 1 (after the module name for modules / first dir otherwise)
-        let _ = root;
-        let mut q = p.clone();
-        if q.len() > 1 && q[1] == "src" {
-            q.remove(1);
+    let norm = |e: &Ent, src: bool, dots: bool| -> (Root, Vec<String>) {
+        let mut p: Vec<String> = e.path.iter().map(|c| c.strip_suffix(".capy").unwrap_or(c).to_string()).collect();
+        if src && e.root == Root::Mod && p.len() > 2 && p[1] == "src" {
+            p.remove(1);
         }
-        q
+        if dots {
+            p = p.iter().map(|c| c.replace('.', "-")).collect();
+        }
+        (e.root.clone(), p)
     };
-    if a.root == b.root && drop_src(&pa, &a.root) == drop_src(&pb, &b.root) {
-        return "src-elided".into();
-    }
-    let dots = |p: &Vec<String>| -> Vec<String> { p.iter().map(|c| c.replace('.', "-")).collect() };
-    if dots(&pa) == dots(&pb) {
-        return "dot-vs-dash".into();
-    }
-    let digits = |p: &Vec<String>| -> Vec<String> {
-        p.iter().map(|c| if c.starts_with(|ch: char| ch.is_ascii_digit()) { format!("f{c}") } else { c.clone() }).collect()
-    };
-    if digits(&dots(&pa)) == digits(&dots(&pb)) {
-        return "digit-escape".into();
+    for (src, dots, name) in [(true, false, "src-elided"), (false, true, "dot-vs-dash"), (true, true, "dot-vs-dash+src-elided")] {
+        if norm(a, src, dots) == norm(b, src, dots) {
+            return name.into();
+        }
     }
     if a.root != b.root {
         return "root-vs-module".into();
